@@ -223,6 +223,54 @@ def run(chk):
           "the remembered (scope, slot) is returned as soon as it still holds the name: a variable of the same name introduced later into a nearer scope (eval(), use()) is ignored")
     r5.require(2, "obligations")
 
+    # ------------------------------------------------------------------ R4.7 evaluated text gets fresh nodes (needed while the cache is layout-dependent)
+    r7 = chk.rule("R4.7", "while the per-node cache is not revalidated against the current scope layout (R4.4 / R4.5 fail), source text handed to eval()/eval_file()/use() is evaluated on nodes "
+                          "parsed in that very call: the engine stores no syntax tree of evaluated text for reuse",
+                  "the same eval(\"x\") text evaluated under different arrangements of local variables resolves x afresh each time")
+    layout_dependent = not dominated or not inner_checked
+    if not layout_dependent:
+        r7.note("R4.4 and R4.5 hold: the caches are layout-independent, reusing parsed trees would be sound; nothing to check")
+        r7.ob("not needed: the lookup caches are revalidated on every path", True, "", "", "")
+    else:
+        CBQ = "chaiscript::ChaiScript_Basic"
+        nev = 0
+        for g in prog.fns:
+            if (g.get("cls") or "") != CBQ or g["tk"] == "pattern":
+                continue
+            glocs = ref_inits(g)
+            for n in walk(g["body"]):
+                if not (n.get("k") == "call" and n.get("name") == "eval" and n.get("obj") is not None and "AST_Node" in prog.T(g, strip_casts(n["obj"]).get("t"))):
+                    continue
+                nev += 1
+                chk.touched([g])
+
+                def origin(e, depth=0):
+                    e = strip_casts(e)
+                    if depth > 6:
+                        return "?"
+                    if e.get("k") == "call" and e.get("name") == "parse":
+                        return "parse"
+                    if e.get("k") == "call" and e.get("name") in ("operator->", "operator*", "get") and e.get("obj") is not None:
+                        return origin(e["obj"], depth + 1)
+                    if e.get("k") == "unop" and e.get("op") in ("*", "&"):
+                        return origin(e["e"], depth + 1)
+                    if e.get("k") == "ref" and e.get("rk") == "param":
+                        return "param"
+                    if e.get("k") == "ref" and e.get("rk") == "local":
+                        v = glocs.get(e.get("vid"))
+                        if v is not None and v.get("init") is not None:
+                            # a local that is later re-assigned from storage is not a fresh tree
+                            reassigned = any(x.get("k") == "assign" and strip_casts(x["lhs"]).get("vid") == e.get("vid") for x in walk(g["body"]))
+                            return "reassigned local" if reassigned else origin(v["init"], depth + 1)
+                        return "local without initialiser (assigned later)"
+                    return expr_str(prog, g, e)[:60]
+                o = origin(n["obj"])
+                r7.ob("%s: the tree evaluated at line %d was parsed in this call or handed in by the caller" % (strip_targs(g["q"]), n["l"]), o in ("parse", "param"),
+                      "%s:%d" % (g["file"], n["l"]), g["q"],
+                      "the evaluated tree comes from `%s`: its nodes keep the lookup caches of an earlier evaluation under another scope layout, and those caches are trusted (R4.4 / R4.5)" % o)
+        r7.anchor(nev >= 1, "evaluations of a syntax tree in ChaiScript_Basic (found %d)" % nev)
+    r7.require(1, "obligation")
+
 
 def derives_from_cache(prog, f, e, locs, depth=0):
     """expression derived from the cached location value (the atomic `t_loc` parameter / its local copy `loc`)"""
